@@ -22,7 +22,7 @@ TripSlices ==
     CASE Slice = "ids"    -> {[BaseTrip EXCEPT !.id = a, !.route = b] : a \in Strs, b \in Strs}
       [] Slice = "header" -> {[BaseTrip EXCEPT !.dir = d, !.hasSD = hd, !.sd = sd, !.hasST = ht, !.st = st, !.sr = r,
                                                !.stus = IF n = 0 THEN <<>> ELSE IF n = 1 THEN <<BaseStu>> ELSE <<BaseStu, BaseStu>>] :
-                                d \in 0..2, hd \in BOOLEAN, sd \in {ZeroTime, 0, 7}, ht \in BOOLEAN, st \in {0, 1}, r \in {0, 1, 3}, n \in 0..2}
+                                d \in 0..2, hd \in BOOLEAN, sd \in {ZeroTime, 0, 7}, ht \in BOOLEAN, st \in {0, 1}, r \in {0, 1, 2, 3, 5, 6, 7}, n \in 0..2}
       [] Slice = "stu"    -> {[BaseTrip EXCEPT !.stus = <<s>>] : s \in Stus} \cup {[BaseTrip EXCEPT !.stus = <<BaseStu, s>>] : s \in Stus}
       [] Slice = "events" -> {[BaseTrip EXCEPT !.stus = <<[BaseStu EXCEPT !.arr = a, !.dep = d]>>] : a \in Evs,
                                 d \in {None, Some(NoEv), Some([time |-> Some(0), delay |-> Some(0), unc |-> Some(0)])} \cup {Some([NoEv EXCEPT !.delay = x]) : x \in OptOf({-1, 0, 1})}}
@@ -40,6 +40,10 @@ TripSlices ==
                                 \cup {[BaseTrip EXCEPT !.stus = <<N(1, 5, 5), N(2, 7, b), N(3, 8, c), N(4, 9, d)>>] : b \in {5, 261}, c \in {5, 261}, d \in {5, 261}}
       [] Slice = "durations" -> {[BaseTrip EXCEPT !.st = x, !.stus = <<[BaseStu EXCEPT !.arr = Some([NoEv EXCEPT !.delay = a]), !.dep = Some([NoEv EXCEPT !.delay = b])]>>] :
                                    x \in {0, 1, 10, 11, 13}, a \in OptOf({-1, 0, 1, 10, 11, 12, 13}), b \in OptOf({0, 11})}
+      (* the schedule relationship of a stop time update (scheduled, skipped, no data, unscheduled) next to its events *)
+      [] Slice = "srEvents" -> {[BaseTrip EXCEPT !.stus = <<[BaseStu EXCEPT !.sr = r, !.arr = a, !.dep = d]>>] : r \in 0..3,
+                                  a \in {None, Some(NoEv), Some([time |-> Some(5), delay |-> None, unc |-> None]), Some([time |-> Some(0), delay |-> Some(1), unc |-> Some(0)])},
+                                  d \in {None, Some(NoEv), Some([time |-> Some(5), delay |-> None, unc |-> None]), Some([time |-> None, delay |-> Some(0), unc |-> Some(3)])}}
       [] Slice = "stu2"   -> {[BaseTrip EXCEPT !.stus = <<BaseStu, a, b>>] : a \in {x \in Stus : x.sr = 0 /\ x.arr = None}, b \in {x \in Stus : x.seq = None /\ x.track = None}}
       [] Slice = "hdr2"   -> {[BaseTrip EXCEPT !.id = a, !.route = b, !.dir = d, !.hasSD = hd, !.sd = IF hd THEN 7 ELSE ZeroTime, !.hasST = ht, !.st = IF ht THEN st ELSE 0,
                                                !.stus = IF n = 0 THEN <<>> ELSE <<BaseStu>>] :
